@@ -84,3 +84,126 @@ def flow(fields, coords, P, t=None, axisymmetric=False, viscous=None, asbuilt=No
         else:
             res['rho_e'] = res['rho_e'] - div(work)
     return res
+
+
+def reacting_euler_1d(f, P, x, Keq):
+    """Two-species (N, N2) thermally-perfect reacting Euler equations in 1-D, steady.
+    f: dict rho_N, rho_N2, u, T (terms); Keq: term of the equilibrium constant at T.
+    Dissociation N2 + M <-> 2N + M with Arrhenius forward rates k_f,s = C_f,s T^eta_s exp(-Ea_s/(R T)):
+      omega_N = (2 k_fN rho_N + k_fN2 rho_N2) * (rho_N2/(2 M_N) - rho_N^2/(M_N^2 K_eq))     (mass production of N)
+    Pressure p = rho_N R_N T + rho_N2 (R_N/2) T.  Enthalpies: h_N = 5/2 R_N T + h0_N,
+    h_N2 = 7/2 (R_N/2) T + e_vib + h0_N2 with e_vib = R_N2 theta_v/(exp(theta_v/T) - 1)."""
+    rN, rN2, u, T = f['rho_N'], f['rho_N2'], f['u'], f['T']
+    rho = rN + rN2
+    kN = P['Cf1_N'] * tm.fn('pow', T, P['etaf1_N']) * tm.fn('exp', -P['Ea_N'] / (P['R'] * T))
+    kN2 = P['Cf1_N2'] * tm.fn('pow', T, P['etaf1_N2']) * tm.fn('exp', -P['Ea_N2'] / (P['R'] * T))
+    M = P['M_N']
+    omega = (2 * kN * rN + kN2 * rN2) * (rN2 / (2 * M) - rN * rN / (M * M * Keq))
+    p = P['R_N'] * T * (rN + rN2 / 2)
+    evib = P['R_N2'] * P['theta_v_N2'] / (tm.fn('exp', P['theta_v_N2'] / T) - 1)
+    hN = tm.const(5) / 2 * P['R_N'] * T + P['h0_N']
+    hN2 = tm.const(7) / 4 * P['R_N'] * T + evib + P['h0_N2']
+    res = {}
+    res['rho_N'] = D(rN * u, x) - omega
+    res['rho_N2'] = D(rN2 * u, x) + omega
+    res['rho_u'] = D(rho * u * u, x) + D(p, x)
+    res['rho_e'] = D(u * (rN * hN + rN2 * hN2 + rho * u * u / 2), x)
+    res['mass'] = D(rho * u, x)
+    return res
+
+
+def sa_channel(u, nu, eta, P):
+    """Spalart-Allmaras closed RANS channel flow (wall units, eta = y/delta in (0,1)), modified-SA production limiter.
+    u, nu: exact fields (terms in eta).  Returns dict Q_u, Q_v:
+      Q_u = u''/Re_tau + (nu_t u')' + 1,                  nu_t = nu f_v1(chi), chi = nu Re_tau, f_v1 = chi^3/(chi^3 + c_v1^3)
+      Q_v = c_b1 S~ nu - c_w1 f_w (nu/eta)^2 + (1/sigma) [ ((1/Re_tau + nu) nu')' + c_b2 nu'^2 ]
+      S~ = u' + S-  if S- >= -c_v2 u'  else  u' + u'(c_v2^2 u' + c_v3 S-)/((c_v3 - 2 c_v2) u' - S-),   S- = nu f_v2/(kappa^2 eta^2), f_v2 = 1 - chi/(1 + chi f_v1)
+      r = min(nu/(S~ kappa^2 eta^2), 10), g = r + c_w2 (r^6 - r), f_w = g ((1 + c_w3^6)/(g^6 + c_w3^6))^(1/6), c_w1 = c_b1/kappa^2 + (1 + c_b2)/sigma"""
+    Re = P['re_tau']
+    du, dnu = D(u, eta), D(nu, eta)
+    chi = nu * Re
+    fv1 = chi ** 3 / (chi ** 3 + P['cv1'] ** 3)
+    nut = nu * fv1
+    Qu = D(du, eta) / Re + D(nut * du, eta) + 1
+    fv2 = 1 - chi / (1 + chi * fv1)
+    k2e2 = P['kappa'] * P['kappa'] * eta * eta
+    Sbar = nu * fv2 / k2e2
+    S = tm.ite(tm.cmp('ge', Sbar, -P['cv2'] * du), du + Sbar,
+               du + du * (P['cv2'] * P['cv2'] * du + P['cv3'] * Sbar) / ((P['cv3'] - 2 * P['cv2']) * du - Sbar))
+    r0 = nu / (S * k2e2)
+    r = tm.ite(tm.cmp('gt', r0, tm.const(10)), tm.const(10), r0)
+    g = r + P['cw2'] * (r ** 6 - r)
+    fw = g * tm.fn('pow', (1 + P['cw3'] ** 6) / (g ** 6 + P['cw3'] ** 6), tm.const(1) / 6)
+    cw1 = P['cb1'] / (P['kappa'] * P['kappa']) + (1 + P['cb2']) / P['sigma']
+    prod = P['cb1'] * S * nu
+    dest = cw1 * fw * (nu / eta) ** 2
+    trans = (D((1 / Re + nu) * dnu, eta) + P['cb2'] * dnu * dnu) / P['sigma']
+    return dict(Q_u=Qu, Q_v=prod - dest + trans)
+
+
+def fans_sa(f, coords, P, t=None, wall_distance=None, sa_extra=None, asbuilt=None):
+    """Favre-averaged Navier-Stokes closed with the Spalart-Allmaras model, 2-D, conservative form.
+    f: dict rho,u,v,p,nu (terms).  mu_t = rho nu f_v1(chi), chi = rho nu/mu, f_v1 = chi^3/(chi^3+c_v1^3).
+      mass   : rho_t + div(rho u)
+      mom_i  : (rho u_i)_t + div(rho u_i u) + dp/dx_i - div(tau_i),  tau = (mu+mu_t)(grad u + grad u^T - 2/3 div u I)
+      energy : (rho E)_t + div(rho u H) - div(tau.u) - div((mu cp/Pr + mu_t cp/Pr_t) grad T),  T = p/(rho R), E = cv T + |u|^2/2, cv = R/(Gamma-1), cp = Gamma cv
+      nu     : (rho nu)_t + div(rho nu u) - c_b1 S rho nu + [c_w1 f_w rho (nu/d)^2 if wall] - (1/sigma)[div((mu + rho nu) grad nu) + c_b2 rho |grad nu|^2]
+               S = |du/dy - dv/dx| (+ nu f_v2/(kappa^2 d^2) with a wall)"""
+    x, y = coords
+    rho, u, v, p, nu = f['rho'], f['u'], f['v'], f['p'], f['nu']
+    mu = P['mu']
+    chi = rho * nu / mu
+    fv1 = chi ** 3 / (chi ** 3 + P['c_v1'] ** 3)
+    frozen = None
+    if asbuilt and asbuilt.get('f_v1_not_differentiated'):
+        # as-built model (known finding): f_v1 is treated as a constant when the eddy viscosity is differentiated
+        frozen = tm.sym('f_v1:frozen')
+    mut = rho * nu * (frozen if frozen is not None else fv1)
+    cv = P['R'] / (P['Gamma'] - 1)
+    cp = P['Gamma'] * cv
+    T = p / (rho * P['R'])
+    ddt = (lambda q: D(q, t)) if t is not None else (lambda q: tm.ZERO)
+    div = lambda a, b: D(a, x) + D(b, y)
+    dvg = div(u, v)
+    me = mu + mut
+    txx = me * (2 * D(u, x) - tm.TWO / 3 * dvg)
+    tyy = me * (2 * D(v, y) - tm.TWO / 3 * dvg)
+    txy = me * (D(u, y) + D(v, x))
+    E = cv * T + (u * u + v * v) / 2
+    H = E + p / rho
+    kap = mu * cp / P['Pr'] + mut * cp / P['Pr_t']
+    res = {}
+    res['rho'] = ddt(rho) + div(rho * u, rho * v)
+    res['rho_u'] = ddt(rho * u) + div(rho * u * u, rho * u * v) + D(p, x) - div(txx, txy)
+    res['rho_v'] = ddt(rho * v) + div(rho * u * v, rho * v * v) + D(p, y) - div(txy, tyy)
+    res['rho_e'] = ddt(rho * E) + div(rho * u * H, rho * v * H) - div(u * txx + v * txy, u * txy + v * tyy) - div(kap * D(T, x), kap * D(T, y))
+    if asbuilt and asbuilt.get('energy_without_rho_cv_dTdt'):
+        # as-built model (known finding): the internal-energy part of d(rho E)/dt lacks rho*cv*dT/dt
+        res['rho_e'] = res['rho_e'] - rho * cv * ddt(T)
+    omega = tm.fn('fabs', D(u, y) - D(v, x))
+    S = omega
+    dest = tm.ZERO
+    if wall_distance is not None:
+        d = wall_distance
+        fv2 = 1 - chi / (1 + chi * fv1)
+        Sm0 = nu * fv2 / (P['kappa'] * P['kappa'] * d * d)
+        if 'c_v2' in P:
+            # modified SA production limiter (as in the channel solution)
+            Sm = tm.ite(tm.cmp('le', -P['c_v2'] * omega, Sm0), Sm0,
+                        omega * (P['c_v2'] * P['c_v2'] * omega + P['c_v3'] * Sm0) / ((P['c_v3'] - 2 * P['c_v2']) * omega - Sm0))
+        else:
+            Sm = Sm0
+        S = omega + Sm
+        r = nu / (S * P['kappa'] * P['kappa'] * d * d)
+        g = r + P['c_w2'] * (r ** 6 - r)
+        fw = g * tm.fn('pow', (1 + P['c_w3'] ** 6) / (g ** 6 + P['c_w3'] ** 6), tm.const(1) / 6)
+        cw1 = P['c_b1'] / (P['kappa'] * P['kappa']) + (1 + P['c_b2']) / P['sigma']       # SA: c_w1 = c_b1/kappa^2 + (1+c_b2)/sigma
+        dest = cw1 * fw * rho * (nu / d) ** 2
+    gn2 = D(nu, x) * D(nu, x) + D(nu, y) * D(nu, y)
+    res['nu'] = ddt(rho * nu) + div(rho * nu * u, rho * nu * v) - P['c_b1'] * S * rho * nu + dest \
+        - (div((mu + rho * nu) * D(nu, x), (mu + rho * nu) * D(nu, y)) + P['c_b2'] * rho * gn2) / P['sigma']
+    if frozen is not None:
+        keys = sorted(res)
+        vals = tm.subst([res[k] for k in keys], {frozen: fv1})
+        res = dict(zip(keys, vals))
+    return res
